@@ -49,7 +49,9 @@ func VerifC10TokRaw(neg bool, nd int, tail string) {
 
 	iv, ierr := tok.Int()
 	uv, uerr := tok.Uint()
-	vrt.Observe("iv", iv)
+	if tail == "" {
+		vrt.Observe("iv", iv) // for non-integers the value comes from strconv.ParseFloat (uninterpreted here)
+	}
 	vrt.Observe("ierr", zzNumErr(ierr))
 	vrt.Observe("uerr", zzNumErr(uerr))
 	if tail != "" {
@@ -110,13 +112,11 @@ func VerifC10TokTyped(kind int) {
 		} else {
 			vrt.Assert("C10/toktyped/uint-int", ierr == nil && iv == int64(u))
 		}
-	default:
+	case 2:
 		f := vrt.Float64("f")
 		vrt.Assume(!math.IsNaN(f) && !math.IsInf(f, 0) && f != 0)
 		tok := Float(f)
-		vrt.Assert("C10/toktyped/float-kind", tok.Kind() == '0')
 		iv, ierr := tok.Int()
-		uv, uerr := tok.Uint()
 		vrt.Cover("float")
 		frac := math.Trunc(f) != f
 		// Int: documented truncation / saturation / classification
@@ -136,7 +136,13 @@ func VerifC10TokTyped(kind int) {
 		default:
 			vrt.Assert("C10/toktyped/float-int-exact", ierr == nil && float64(iv) == f)
 		}
-		// Uint
+	default:
+		f := vrt.Float64("f")
+		vrt.Assume(!math.IsNaN(f) && !math.IsInf(f, 0) && f != 0)
+		tok := Float(f)
+		uv, uerr := tok.Uint()
+		vrt.Cover("float")
+		frac := math.Trunc(f) != f
 		switch {
 		case f >= 18446744073709551616.0:
 			vrt.Assert("C10/toktyped/float-uint-saturate-max", uv == math.MaxUint64 && zzNumErr(uerr) != 0)
